@@ -123,3 +123,17 @@ def sort_plain(xs):
 
 
 NATIVE.update({"dedup": dedup, "sort_int": sort_int, "sort_plain": sort_plain})
+
+
+# ----------------------------------------------------------------------------------------------- date-time view (C20)
+def dt_instant(d):
+    return int(d.timestamp())
+
+
+def dt_offset(d):
+    return int(d.utcoffset().total_seconds())
+
+
+def eu_offset(u):
+    from specs.dt_spec import eu_offset as _eu
+    return _eu(u)
